@@ -538,7 +538,11 @@ func (s *session) handleLogon(msg *Message) error {
 
 	nextSenderMsgNumAtLogonReceived := s.store.NextSenderMsgSeqNum()
 
-	// Make sure this is a valid session before resetting the store.
+	// Make sure this is a valid session before resetting the store: the counterparty and the time stamp
+	// first (the sequence number can only be judged after a reset), then the application.
+	if err := s.verifySelect(msg, false, false, false); err != nil {
+		return err
+	}
 	if err := s.verifyMsgAgainstAppImpl(msg); err != nil {
 		return err
 	}
